@@ -325,6 +325,7 @@ func (fr *frame) applyContract(b *ssa.BasicBlock, st *state, ins ssa.Instruction
 	}
 	for _, cc := range all {
 		trPost := bindC(cc, st, pre, results)
+		trPost.depth = 0 // the callee's postcondition is used as stated; its spec terms are not unfolded here
 		for _, cl := range cc.clausesFor(vc.layer) {
 			if cl.Kind != "ensures" {
 				continue
@@ -770,5 +771,7 @@ func (fr *frame) callsiteObls(b *ssa.BasicBlock, st *state, ins ssa.Instruction,
 		f := vc.trClause(tr, cl)
 		vc.addObl(&obligation{Name: fmt.Sprintf("callsite/%s@%s#%d", cl.Label, short, n), Kind: "ensures", Label: cl.Label, Goal: and(fr.cond[b], not(f)),
 			Pos: vc.pos(ins.Pos()), Clause: cl.Src, Props: propsOfLabel(cl.Label, vc.props), Inputs: vc.inputTerms()})
+		// asserted, then available as a fact on the paths through this call
+		vc.c.assume(implies(fr.cond[b], f))
 	}
 }
